@@ -122,11 +122,16 @@ example : tsLaw (toyChrono (-1500000000)) (.named 0) (-1500000000) [37, 43] = tr
     zoneOfArg (toyChrono (-1500000000)) (some (.bytes [85, 84, 67])) = some (.named 0) ∧
     tzAccepted (toyChrono (-1500000000)) none = true := by decide
 
-/-- the glue panics (`datetime_to_utc`: `expect("invalid timestamp")`) when chrono hands back a
-    leap-second representation that is not on second 59 of a UTC minute — reachable with a zone
-    whose offset is not a whole number of minutes:
-    `parse_timestamp!("1880-01-01 00:00:60", "%Y-%m-%d %H:%M:%S", timezone: "America/New_York")`. -/
-theorem witness_leap_second_panic : Time.datetimeToUtc (-2840122979, 1000000000) = .panic := by
+/-- FIXED (/repo 83f4a4b): the glue used to panic (`datetime_to_utc`: `expect("invalid timestamp")`)
+    when chrono hands back a leap-second representation that is not on second 59 of a UTC minute —
+    reachable with a zone whose offset is not a whole number of minutes:
+    `parse_timestamp!("1880-01-01 00:00:60", "%Y-%m-%d %H:%M:%S", timezone: "America/New_York")`.
+    It now returns the instant (reply of the implementation: `ts:-2840122978000000000`). -/
+theorem fixed_leap_second : Time.datetimeToUtc (-2840122979, 1000000000) = .ok (.ts (-2840122978000000000)) := by
   decide
+
+/-- `datetime_to_utc` has no panicking outcome any more -/
+theorem datetimeToUtc_never_panics (p : Int × Nat) : Time.datetimeToUtc p ≠ .panic := by
+  simp [Time.datetimeToUtc]
 
 end C25
